@@ -335,6 +335,32 @@ Section Main.
       apply (exec_mono call join n _ _ _ r Hn Hr). lia.
   Qed.
 
+  (* the staged run may use any key k' for the materialised value (the outer FROM renamed
+     accordingly): this is the shape the differential harness compares on the real code *)
+  Theorem cte_is_staged_at n d c k' inner s rest alias :
+    s_with s = [(c, inner)] -> s_from s = FTable (c :: rest) alias ->
+    blind_select s = true -> avoids [c] inner = true ->
+    (forall v, ex n (plain d) (JStmt inner) = Ok v -> exists rows, v = VArr rows) ->
+    ex (S n) (plain d) (JStmt (SSelect s)) =
+    let! v := ex n (plain d) (JStmt inner) in
+    ex (S n) (plain (bind_doc d k' v))
+       (JStmt (SSelect (set_from (clear_with s) (FTable (k' :: rest) alias)))).
+  Proof.
+    intros Hw Hf Hb Hav Harr.
+    rewrite (cte_is_staged n d c inner s rest alias Hw Hf Hb Hav Harr). unfold stage.
+    destruct (ex n (plain d) (JStmt inner)) as [v| | |] eqn:Hin; cbn [bind]; try reflexivity.
+    destruct (Harr v eq_refl) as (rows & ->).
+    rewrite !exec_select_unfold. cbn [set_from clear_with set_with s_with s_from]. rewrite Hf.
+    change (register_ctes (plain (bind_doc d c (VArr rows))) []) with (plain (bind_doc d c (VArr rows))).
+    change (register_ctes (plain (bind_doc d k' (VArr rows))) []) with (plain (bind_doc d k' (VArr rows))).
+    cbn zeta.
+    rewrite (from_doc_arr (ex n) (bind_doc d c (VArr rows)) c rest alias rows) by apply obj_get_set_same.
+    rewrite (from_doc_arr (ex n) (bind_doc d k' (VArr rows)) k' rest alias rows) by apply obj_get_set_same.
+    destruct (reader rest (VArr rows)) as [v| | |]; cbn [bind]; try reflexivity.
+    destruct (as_array v) as [arr| | |]; cbn [bind]; try reflexivity.
+    apply run_select_blind_exec; [exact Hb|repeat split].
+  Qed.
+
   (* ================================================================ *)
   (* 5. CTE chains of any length                                       *)
   (* ================================================================ *)
@@ -537,6 +563,29 @@ Section Main.
     destruct (build_from (ex n) join (register_ctes ctx w') (s_from s)); cbn [bind]; try reflexivity.
     transitivity (run_select (ex n) call join (register_ctes ctx w') s a);
       [apply run_select_ctx; reflexivity|reflexivity].
+  Qed.
+
+  (* the chain theorem for any declaration order: it suffices that SOME ordering of the WITH list
+     is a well-scoped chain (e.g. WITH c2 AS (... FROM c1), c1 AS (...)) *)
+  Theorem cte_chain_any_order d d' s w' k r :
+    Permutation (s_with s) w' -> chain_ok w' = true ->
+    staged_chain call join d w' d' ->
+    stage_head (SSelect (clear_with s)) = Some k ->
+    r <> OutOfModel ->
+    (evals (plain d) (JStmt (SSelect s)) r <->
+     evals (plain d') (JStmt (SSelect (clear_with s))) r).
+  Proof.
+    intros Hp Hok Hchain Hhead Hr.
+    assert (Hnd : NoDup (map fst (s_with s))).
+    { unfold chain_ok in Hok. apply Bool.andb_true_iff in Hok. destruct Hok as [Hnd _].
+      apply nodup_str_NoDup in Hnd.
+      apply (Permutation_NoDup (Permutation_map fst (Permutation_sym Hp))). exact Hnd. }
+    pose proof (cte_chain d d' (set_with s w') k r Hok Hchain Hhead Hr) as Hc.
+    change (clear_with (set_with s w')) with (clear_with s) in Hc.
+    rewrite <- Hc. unfold StageSpec.evals.
+    split; intros (Hr' & n & Hn); (split; [exact Hr'|]); exists n.
+    - rewrite <- (cte_order_irrelevant n (plain d) s w' Hnd Hp). exact Hn.
+    - rewrite (cte_order_irrelevant n (plain d) s w' Hnd Hp). exact Hn.
   Qed.
 
   (* reading the same CTE several times: every read (whatever path follows the name) sees the value
@@ -957,6 +1006,32 @@ Section Main.
       rewrite String.eqb_sym, Hab. reflexivity.
     - apply (rc_here _ [b; a] a (SSelect sa)); [exact Hla|].
       unfold mem_str. cbn [existsb]. rewrite String.eqb_refl. apply Bool.orb_true_r.
+  Qed.
+
+  (* ================================================================ *)
+  (* 9b. fuel that is enough (partial: no CTE / derived table / subquery) *)
+  (* ================================================================ *)
+
+  (* standalone, a table is read without consulting the interpreter *)
+  Lemma from_plain_table rec rec' d p alias :
+    build_from rec join (plain d) (FTable p alias) = build_from rec' join (plain d) (FTable p alias).
+  Proof. destruct p; reflexivity. Qed.
+
+  (* a stage over a document table: the source rows need no fuel; two units above their nesting
+     depth are enough, more fuel changes nothing *)
+  Theorem stage_fuel_enough d s k rest alias rows :
+    s_with s = [] -> s_from s = FTable (k :: rest) alias -> blind_select s = true ->
+    build_from (fun _ _ => OutOfModel) join (plain d) (FTable (k :: rest) alias) = Ok (Some rows) ->
+    forall n, S (S (rdepth rows)) <= n ->
+      ex n (plain d) (JStmt (SSelect s)) = ex (S (S (rdepth rows))) (plain d) (JStmt (SSelect s)).
+  Proof.
+    intros Hw Hf Hb Hsrc n Hn. destruct n as [|n]; [lia|].
+    rewrite !exec_select_unfold, Hw, Hf.
+    change (register_ctes (plain d) []) with (plain d). cbn zeta.
+    rewrite (from_plain_table (ex n) (fun _ _ => OutOfModel) d (k :: rest) alias).
+    rewrite (from_plain_table (ex (S (rdepth rows))) (fun _ _ => OutOfModel) d (k :: rest) alias).
+    rewrite Hsrc. cbn [bind].
+    apply run_select_fuel_enough; [exact Hb|apply same_pipeline_refl|lia|lia].
   Qed.
 End Main.
 
